@@ -44,9 +44,7 @@ META = {
 
 
 def choose(ctx, name, n):
-    v = z3.Int(name)
-    ctx.assume(z3.And(v >= 0, v < n))
-    return ctx.pick(v)
+    return ctx.choose(name, n)
 
 
 def build_stream(ctx, K, A):
